@@ -96,6 +96,39 @@ def naive_J(kind, x):
     return re, im
 
 
+def branch_points(kind, x):
+    """y in (0, sqrt|x|) where 1 -+ exp(-i sqrt(|x| - y^2)) vanishes"""
+    out, k = [], 0
+    while True:
+        s0 = 2 * math.pi * k if kind == "b" else (2 * k + 1) * math.pi
+        if s0 * s0 >= -x:
+            return sorted(out)
+        if s0 > 0:
+            out.append(math.sqrt(-x - s0 * s0))
+        k += 1
+
+
+def repaired_J(obj, kind, x):
+    """the implementation's OWN integrands and assembly (its wrapper runs unchanged), with
+    `_integrator` replaced by scipy quad that is told the branch points: if this reproduces the
+    defining integral, the only faulty ingredient is the call of quad without break points"""
+    from WallGo.PotentialTools import integrals as I
+    brk = branch_points(kind, x)
+
+    def integ(func, a, b):
+        # one quad call per smooth piece (end-point singularities are what QAGS is good at;
+        # QAGP with `points=` loses 1e-4 on the logarithmic ones)
+        edges = [a] + [p for p in brk if a < p < b] + [b]
+        return float(sum(_quad(func, lo, hi) for lo, hi in zip(edges[:-1], edges[1:])))
+    saved = I._integrator
+    try:
+        I._integrator = integ
+        r = np.asarray(obj._functionImplementation(float(x)), dtype=float).ravel()
+    finally:
+        I._integrator = saved
+    return float(r[0]), float(r[1])
+
+
 def impl_J(obj, x):
     with warnings.catch_warnings():
         warnings.simplefilter("ignore")
@@ -374,6 +407,10 @@ def check_integrands_direct(ctx, rng, n):
                          want=want_im, s=s), key="integrand:%s:imag" % tag)
 
 
+# below these arguments the negative-argument integrand has an interior kink / jump
+KINK = {"f": -math.pi ** 2, "b": -4 * math.pi ** 2}
+
+
 def classify_integral(ctx, tag, kind, obj, x, got, want, tol, where):
     """got/want: (re, im). Reports a failing input; the key separates a quadrature that silently
     missed the interior kink/jump (same rule on the reference integrand reproduces the error) from
@@ -383,11 +420,11 @@ def classify_integral(ctx, tag, kind, obj, x, got, want, tol, where):
             continue
         key = "integral:%s:%s" % (tag, part)
         note = ""
-        if x < 0:
-            nv = naive_J(kind, x)[0 if part == "real" else 1]
-            if abs(g - nv) <= 1e-7 * max(1.0, abs(w)) + 0.02 * abs(g - w):
+        if x < KINK[kind]:
+            rv = repaired_J(obj, kind, x)[0 if part == "real" else 1]
+            if abs(rv - w) <= 1e-8 * max(1.0, abs(w)):
                 key = "quad-unresolved-kink"
-                note = " [scipy quad without break points gives %r on the exact integrand too]" % nv
+                note = " [the same code with break points handed to quad gives %r]" % rv
         ctx.fail_input("%s %s(%r): %s part %r, defining integral %r (diff %.3g)%s" % (
             where, tag, x, part, g, w, g - w, note),
             dict(kind="integral", cls=tag, x=x, part=part, got=g, want=w, where=where),
@@ -506,6 +543,18 @@ def direct(ctx, rng, D):
     objs = {"Jb": ("b", JbIntegral(bUseAdaptiveInterpolation=False)),
             "Jf": ("f", JfIntegral(bUseAdaptiveInterpolation=False))}
     tabs = {"Jb": D.Jb, "Jf": D.Jf}
+    vs_all = {t: np.asarray(tabs[t]._interpolationValues, dtype=float) for t in tabs}
+    # (0) the recorded known finding is replayed first (deterministic KNOWN-FINDING line; silent
+    #     if the code has been repaired)
+    for k in ctx.known.get("findings", []):
+        if k.get("property") == "C20" and k.get("key") == "quad-unresolved-kink":
+            rp = k.get("replay", {})
+            tag = rp.get("cls", "Jf")
+            x = float(rp.get("x", -13.1653165316532))
+            kind, obj = objs[tag]
+            ctx.count("known_finding_replay")
+            classify_integral(ctx, tag, kind, obj, x, impl_J(obj, x), ref_J(kind, x), 1e-7,
+                              "direct")
     # (i) integrands pointwise
     check_integrands_direct(ctx, rng, ctx.n(400, 4000))
     # (ii) direct integrals vs the defining integral, negative arguments beyond the table too
@@ -564,6 +613,7 @@ def direct(ctx, rng, D):
     for tag, (kind, obj) in objs.items():
         T = tabs[tag]
         xs = np.asarray(T._interpolationPoints, dtype=float)
+        grid = float(xs[1] - xs[0])
         cand = [0.5 * (xs[i] + xs[i + 1]) for i in
                 sorted(rng.sample(range(0, 197), ctx.n(16, 196)) +
                        rng.sample(range(197, 1200), ctx.n(16, 300)) +
@@ -573,9 +623,26 @@ def direct(ctx, rng, D):
             x = float(x)
             near0 = abs(x) < 1.0
             nearpi = tag == "Jf" and abs(x + math.pi ** 2) < 1.0
-            rough = tag == "Jf" and x < -math.pi ** 2      # file carries the kink noise there
-            tolv = 2e-3 if near0 else 2e-4 if nearpi else 1e-6
-            told = 2e-2 if near0 else 2e-2 if nearpi else 2e-5
+            # a cubic spline cannot follow the x^{3/2} non-analyticity at 0 nor the one of Jf at
+            # -pi^2: measured 1e-3 / 3e-3 in the value and 1e-2 / 4e-2 in the derivative there
+            tolv = 2e-3 if near0 else 6e-3 if nearpi else 1e-6
+            told = 2e-2 if near0 else 8e-2 if nearpi else 2e-5
+            # this check is about the INTERPOLATION: errors of the nodes themselves (reported by
+            # (iii)) are allowed to propagate the way a cubic spline propagates them: a node
+            # error e at distance k nodes moves the value by <= ~e (2 - sqrt 3)^k and the
+            # derivative by <= ~3 e (2 - sqrt 3)^k / grid step
+            i0 = int(np.searchsorted(xs, x))
+            nerr = 0.0
+            if x < KINK[kind] + 15 * grid:
+                for j in range(max(0, i0 - 14), min(len(xs), i0 + 14)):
+                    if xs[j] >= KINK[kind]:
+                        continue
+                    w = ref_J(kind, float(xs[j]))
+                    e = max(abs(float(vs_all[tag][j, 0]) - w[0]),
+                            abs(float(vs_all[tag][j, 1]) - w[1]))
+                    nerr = max(nerr, e * 0.3 ** max(0.0, abs(x - xs[j]) / grid - 1.0))
+            tolv += 2 * nerr
+            told += 3 * nerr / grid
             want = ref_J(kind, x)
             with warnings.catch_warnings():
                 warnings.simplefilter("ignore")
@@ -591,15 +658,13 @@ def direct(ctx, rng, D):
                 bad_d = abs(dgot[part] - dwant[part]) > told * max(1.0, abs(dwant[part]))
                 if not (bad_v or bad_d):
                     continue
-                key = "spline:%s" % tag
-                if rough:
-                    key = "quad-unresolved-kink"
                 ctx.fail_input(
                     "default %s table at x = %r (%s part): value %r vs integral %r, derivative "
                     "%r vs %r" % (tag, x, "real" if part == 0 else "imag", got[part],
                                   want[part], dgot[part], dwant[part]),
                     dict(kind="spline", cls=tag, x=x, part=part, got=float(got[part]),
-                         want=want[part], dgot=float(dgot[part]), dwant=dwant[part]), key=key)
+                         want=want[part], dgot=float(dgot[part]), dwant=dwant[part]),
+                    key="spline:%s" % tag)
                 break
     # (v) one-loop thermal potential on the real integrals: Stefan-Boltzmann, heavy-mass
     #     suppression, continuity in the masses
@@ -674,7 +739,8 @@ def replay(rep):
         print("  implementation (direct):", impl_J(obj, x))
         print("  defining integral      :", ref_J("b" if tag == "Jb" else "f", x))
         if x < 0:
-            print("  scipy quad, no breaks  :", naive_J("b" if tag == "Jb" else "f", x))
+            print("  scipy quad, no breaks, exact integrand :", naive_J("b" if tag == "Jb" else "f", x))
+            print("  implementation + break points in quad  :", repaired_J(obj, "b" if tag == "Jb" else "f", x))
     if kind == "integrand":
         cls = JbIntegral if rep["cls"] == "Jb" else JfIntegral
         print("  NegReal:", cls._integrandNegativeReal(rep["x"], rep["y"]),
